@@ -161,3 +161,20 @@ Proof.
   - destruct n as [|n]; [reflexivity|]. destruct l as [|x l]; [simpl; rewrite firstn_nil; reflexivity|].
     simpl. apply IH.
 Qed.
+
+Lemma firstn_plus {A} (n m : nat) (l : list A) :
+  firstn (n + m) l = firstn n l ++ firstn m (skipn n l).
+Proof.
+  revert l. induction n as [|n IH]; intros l; [reflexivity|].
+  destruct l as [|x l]; [simpl; rewrite firstn_nil; reflexivity|].
+  simpl. f_equal. apply IH.
+Qed.
+
+Lemma skipn_app_cons {A} (a : list A) (x : A) (b : list A) : skipn (S (length a)) (a ++ x :: b) = b.
+Proof. induction a as [|y a IH]; [reflexivity|]. simpl. exact IH. Qed.
+
+Lemma skipn_app_exact {A} (a b : list A) : skipn (length a) (a ++ b) = b.
+Proof. induction a as [|y a IH]; [reflexivity|]. simpl. exact IH. Qed.
+
+Lemma firstn_app_exact {A} (a b : list A) : firstn (length a) (a ++ b) = a.
+Proof. induction a as [|y a IH]; [reflexivity|]. simpl. f_equal. exact IH. Qed.
